@@ -14,6 +14,7 @@ mod exec;
 mod helpers;
 mod record;
 mod text;
+mod transcript;
 mod util;
 mod verdict;
 mod xadd;
@@ -46,6 +47,8 @@ fn main() {
         "encs" => cmd_encs(&args[2..]),
         "helpers" => cmd_helpers(&args[2..]),
         "xadd" => cmd_xadd(&args[2..]),
+        "transcript" => transcript::cmd_transcript(&args[2..]),
+        "render" => cmd_render(&args[2..]),
         other => {
             eprintln!("unknown command {other}");
             2
@@ -692,5 +695,31 @@ fn cmd_xadd(args: &[String]) -> i32 {
     }
     std::fs::write(format!("{out}.summary.json"), serde_json::to_string(&json!({"configs": jobs.len(), "events": events, "crashed": crashed})).unwrap()).unwrap();
     println!("xadd: {} configurations, {} events, {} crashed", jobs.len(), events, crashed.len());
+    0
+}
+
+/// rv render --cases F --out G [--fuzz N --seed S]: corpus of assembler texts (rendered token
+/// programs, plus seeded fuzz strings) for the C20 transcripts.
+fn cmd_render(args: &[String]) -> i32 {
+    let out = arg(args, "--out").expect("--out");
+    use std::io::Write;
+    let mut f = std::fs::File::create(out).unwrap();
+    let mut n = 0usize;
+    if let Some(c) = arg(args, "--cases") {
+        for r in read_ndjson(c) {
+            if r["kind"] == "asm" {
+                writeln!(f, "{}", serde_json::to_string(&json!({"t": "asm", "text": text::render_prog(&r["prog"])})).unwrap()).unwrap();
+                n += 1;
+            }
+        }
+    }
+    if let Some(k) = arg(args, "--fuzz") {
+        let mut r = Rng::new(arg(args, "--seed").map(|s| s.parse().unwrap()).unwrap_or(1) ^ 0xc20);
+        for _ in 0..k.parse::<usize>().unwrap() {
+            writeln!(f, "{}", serde_json::to_string(&json!({"t": "asm", "text": text::gen_fuzz_input(&mut r)})).unwrap()).unwrap();
+            n += 1;
+        }
+    }
+    println!("render: {n} texts");
     0
 }
